@@ -108,6 +108,12 @@ type (
 		AmbigHold
 		S int `json:"s"`
 	}
+	// interface types with methods: documented kind "interface"; the values here are always nil
+	HasMethodIfaces struct {
+		S fmt.Stringer `json:"s"`
+		E error        `json:"e,omitempty"`
+		N int          `json:"n"`
+	}
 	Mixed struct {
 		A int8      `json:"a"`
 		B *uint16   `json:"b"`
@@ -195,6 +201,7 @@ var Pool = []PoolEntry{
 	{"PtrEmbed", reflect.TypeFor[PtrEmbed](), "struct"}, {"Deep", reflect.TypeFor[Deep](), "struct"}, {"WithUnexp", reflect.TypeFor[WithUnexp](), "struct"},
 	{"Mixed", reflect.TypeFor[Mixed](), "struct"}, {"Described", reflect.TypeFor[Described](), "struct"},
 	{"TaggedUnexp", reflect.TypeFor[TaggedUnexp](), "struct"}, {"TaggedUnexpOmit", reflect.TypeFor[TaggedUnexpOmit](), "struct"},
+	{"HasMethodIfaces", reflect.TypeFor[HasMethodIfaces](), "methodiface"},
 	{"DashTwo", reflect.TypeFor[DashTwo](), "struct"}, {"NamedTwo", reflect.TypeFor[NamedTwo](), "struct"}, {"Ambig", reflect.TypeFor[Ambig](), "struct"},
 	{"DashInner", reflect.TypeFor[DashInner](), "struct"}, {"DashMid", reflect.TypeFor[DashMid](), "struct"},
 	{"Rec", reflect.TypeFor[Rec](), "recursive"}, {"RecA", reflect.TypeFor[RecA](), "recursive"}, {"RecB", reflect.TypeFor[RecB](), "recursive"}, {"RecMap", reflect.TypeFor[RecMap](), "recursive"},
@@ -320,6 +327,7 @@ type Opts struct {
 	Recursive   bool // allow the recursive pool types
 	Std         bool // allow standard-library marshaler types
 	NoIface     bool
+	Methods     bool // allow the pool struct whose fields are interface types with methods (error, fmt.Stringer)
 	// KnownFindings switches on the shapes behind open known findings (low probability).
 	NameConflicts bool // fields that share a Go name but not a JSON name, or vice versa (incl. duplicates at one level)
 	BigInt        bool // math/big.Int (inferred as string, marshals as number)
@@ -410,11 +418,11 @@ func (g *tg) td(depth int, addressable bool) *TD {
 		return &TD{K: "map", NamedKey: g.n(3, "namedkey") == 0, Elem: g.td(depth-1, false)}
 	case k == 12 || k == 13 || k == 14:
 		if depth <= 0 {
-			return g.poolType("struct")
+			return g.structPool()
 		}
 		return g.structTD(depth, addressable)
 	case k == 15:
-		return g.poolType("struct")
+		return g.structPool()
 	case k == 16:
 		if g.o.Std {
 			if addressable && g.n(2, "ptrrecv") == 0 {
@@ -450,6 +458,13 @@ func (g *tg) td(depth int, addressable bool) *TD {
 	default:
 		return g.scalar()
 	}
+}
+
+func (g *tg) structPool() *TD {
+	if g.o.Methods && !g.o.NoIface {
+		return g.poolType("struct", "methodiface")
+	}
+	return g.poolType("struct")
 }
 
 func (g *tg) tag() (bool, string) {
